@@ -52,6 +52,7 @@ class FnSpec:
     def __init__(self):
         self.result = None
         self.selfmut = False
+        self.literals = False
         self.refpats = []
         self.sites = {}        # site key -> [lines]
 
@@ -65,7 +66,7 @@ def parse_sidecar(path):
         line = raw.rstrip()
         s = line.strip()
         if cur_site is not None and not (s.startswith("@") or s.startswith("item ") or s.startswith("fn ")
-                                         or s in ("keep_attrs", "selfmut") or s.startswith("result ")
+                                         or s in ("keep_attrs", "selfmut", "literals") or s.startswith("result ")
                                          or s.startswith("refpat ")):
             cur_site.append(raw)
             continue
@@ -98,6 +99,9 @@ def parse_sidecar(path):
             cur_site = None
         elif s == "selfmut":
             cur_fn.selfmut = True
+            cur_site = None
+        elif s == "literals":
+            cur_fn.literals = True
             cur_site = None
         elif s.startswith("refpat "):
             cur_fn.refpats.append(s[7:].strip())
@@ -150,6 +154,25 @@ def instrument_fn(ftext, fspec, ed, base, rules, label):
             raise Undecided("%s: sites %s on a fn without body" % (label, sorted(set(sites) - used)))
         return an
     body_start_txt = take("body_start") or ""
+    if fspec.literals:
+        # Verus gives byte-string literals no interpretation: state what each literal token of this
+        # fn denotes, generated from the token itself (so the axiom cannot drift from the code).
+        seen = []
+        for q in range(an.body_open + 1, an.body_close):
+            tk = st[q]
+            if tk.kind == "str" and tk.text.startswith("b") and tk.text not in seen:
+                seen.append(tk.text)
+        ax = []
+        for lit in seen:
+            if lit.startswith("br"):
+                inner = lit[lit.index('"') + 1:lit.rindex('"')]
+                bs = inner.encode()
+            else:
+                import ast
+                bs = ast.literal_eval(lit)
+            ax.append("assume(%s@ == seq![%s]);" % (lit, ", ".join("%du8" % b for b in bs)))
+        if ax:
+            body_start_txt = "proof { // literal axioms generated from the literal tokens\n" + "\n".join(ax) + "\n}\n" + body_start_txt
     if fspec.selfmut:
         # R4: `mut self` receiver -> `self` + `let mut self_ = self;` + self -> self_ in the body
         p = an.params_open + 1
@@ -194,12 +217,51 @@ def instrument_fn(ftext, fspec, ed, base, rules, label):
                     q += 1
                 ed.insert(base + st[q].end, " " + txt.strip() + ": ")
             continue
-        m = re.match(r"return (\d+)$", key)
+        m = re.match(r"(?:loop (\d+) )?stmt (-?\d+)$", key)
         if m:
-            k = int(m.group(1))
-            rets = an.returns()
+            if m.group(1) is None:
+                bo, bc = an.body_open, an.body_close
+            else:
+                k = int(m.group(1))
+                if k >= len(loops):
+                    raise Undecided("%s: loop %d not found (fn has %d loops)" % (label, k, len(loops)))
+                bo, bc = loops[k][1], loops[k][2]
+            stmts = an.statements(bo, bc)
+            n = int(m.group(2))
+            if not (-len(stmts) <= n < len(stmts)):
+                raise Undecided("%s: statement %d not found (%d statements)" % (label, n, len(stmts)))
+            ed.insert(base + st[stmts[n][0]].start, take(key) + "\n")
+            continue
+        m = re.match(r"(?:loop (\d+) )?before_call (\w+)(?: (\d+))?$", key)
+        if m:
+            # before the top-level statement (of the fn body / of loop K's body) that contains the
+            # n-th call of NAME; anchored on the callee identifier only, never on statement text
+            if m.group(1) is None:
+                bo, bc = an.body_open, an.body_close
+            else:
+                k = int(m.group(1))
+                if k >= len(loops):
+                    raise Undecided("%s: loop %d not found (fn has %d loops)" % (label, k, len(loops)))
+                bo, bc = loops[k][1], loops[k][2]
+            want_n = int(m.group(3) or 0)
+            hit = None
+            cnt = 0
+            for (s0, s1, _t) in an.statements(bo, bc):
+                for q in range(s0, s1 + 1):
+                    if rsx.is_id(st[q], m.group(2)) and q + 1 < len(st) and rsx.is_p(st[q + 1], "("):
+                        if cnt == want_n and hit is None:
+                            hit = s0
+                        cnt += 1
+            if hit is None:
+                raise Undecided("%s: lost anchor: call %s #%d not found in block" % (label, m.group(2), want_n))
+            ed.insert(base + st[hit].start, take(key) + "\n")
+            continue
+        m = re.match(r"(return|break) (\d+)$", key)
+        if m:
+            k = int(m.group(2))
+            rets = an.returns() if m.group(1) == "return" else [i for i in range(an.body_open + 1, an.body_close) if rsx.is_id(st[i], "break")]
             if k >= len(rets):
-                raise Undecided("%s: return %d not found (fn has %d)" % (label, k, len(rets)))
+                raise Undecided("%s: %s %d not found (fn has %d)" % (label, m.group(1), k, len(rets)))
             r = rets[k]
             txt = take(key)
             prev = st[r - 1]
